@@ -5,16 +5,18 @@ PROP = dict(
     extract=["editor"],
     lean_targets=["Chewing.Props.C07"],
     runs=[dict(bin="editor", args=["--profile", "c07"], args_thorough=["--profile", "c07"])],
-    scope=fn_scope("ed key", "ed select", "ed startsel", "ed cancelsel", "ed jump", "ed setopts", "ed cands"),
+    scope=fn_scope("ed key", "ed select", "ed startsel", "ed cancelsel", "ed jump", "ed setopts", "ed setlayout",
+                   "ed setengine", "ed learn", "ed unlearn", "ed cands"),
     level="proof",
     exhaustive=False,
     rule="one evaluation = one step of the real editor (key, select(n), start/cancel_selecting, jump_to_*_selection_point, "
-         "set_editor_options) or one round of the candidate getters (all_candidates, paginated_candidates, total_page, "
+         "set_editor_options, set_syllable_editor, set_conversion_engine, learn_phrase, unlearn_phrase) or one round of the candidate getters (all_candidates, paginated_candidates, total_page, "
          "current_page_no: record `ed cands`, emitted after every step that leaves a list open), recomputed by the model from "
          "the implementation's own complete pre-state; generated histories: selection-heavy profile (page sizes 1..3 half of "
          "the time, 1..10 otherwise; forward and rearward choice; lists opened by Down/Space/start_selecting/grave/Ctrl-0/1, "
          "moved by Down/Space/j/k/jump 0..3, paged by Left/Right/PageUp/PageDown/Space; choices by digit key and select(n) "
-         "incl. n beyond the list and usize::MAX; option/layout changes and removal of displayed user phrases while open); "
+         "incl. n beyond the list and usize::MAX; option/layout changes and removal of displayed user phrases while open, incl. removing the only (user) phrase of the "
+         "highlighted range so that the open list becomes empty); "
          "distinct = distinct record text",
     trusted_base=["hook H1 (Editor::verif_snapshot, TrieBuf::verif_snapshot) is read-only; layout / conversion answers are "
                   "recorded through wrapper objects installed through the public constructors",
